@@ -31,22 +31,24 @@ const (
 )
 
 type probe struct {
-	src       source
-	op        string      // binder method: query form header cookie json xml cbor body uri
-	auto      bool        // WithAutoHandling / WithoutAutoHandling (set explicitly unless defMode)
-	defMode   bool        // the handler does not choose a mode: the documented default is manual handling
-	respHdr   [][2]string // op "respheader": response headers the handler sets before Bind().RespHeader
-	swallow   bool        // totality: the handler ignores the bind error and answers normally
-	typ       *typeSpec
-	want      reflect.Value // struct value to compare with; invalid = no comparison
-	outKind   int
-	send      *sendSpec    // how the client is given the value (nil = the struct setters)
-	multi     []*multiBind // several binds in this request (multibind.go); the fields above except the mode are unused then
-	freshEach bool         // multi: every bind goes through c.Bind() again
-	viaMW     bool         // multi: a middleware switched automatic handling on
-	hdrs      *presetHdrs  // headers set on the client / the request besides the value (nil = none)
-	where     int          // where the application hands the value over: on the request, in a request hook, at client level
-	pre       string       // what the handler does before the judged bind: "" | body-first | multipartform-first
+	src          source
+	op           string      // binder method: query form header cookie json xml cbor body uri
+	auto         bool        // WithAutoHandling / WithoutAutoHandling (set explicitly unless defMode)
+	defMode      bool        // the handler does not choose a mode: the documented default is manual handling
+	respHdr      [][2]string // op "respheader": response headers the handler sets before Bind().RespHeader
+	swallow      bool        // totality: the handler ignores the bind error and answers normally
+	typ          *typeSpec
+	want         reflect.Value // struct value to compare with; invalid = no comparison
+	outKind      int
+	send         *sendSpec    // how the client is given the value (nil = the struct setters)
+	multi        []*multiBind // several binds in this request (multibind.go); the fields above except the mode are unused then
+	freshEach    bool         // multi: every bind goes through c.Bind() again
+	viaMW        bool         // multi: a middleware switched automatic handling on
+	hdrs         *presetHdrs  // headers set on the client / the request besides the value (nil = none)
+	where        int          // where the application hands the value over: on the request, in a request hook, at client level
+	scalarsOnly  bool         // compare the non-slice fields only
+	slicesDiffer bool         // scalarsOnly: the scalars were equal, some slice was not
+	pre          string       // what the handler does before the judged bind: "" | body-first | multipartform-first
 
 	// results
 	ran      bool
@@ -144,7 +146,25 @@ func (p *probe) handler(c fiber.Ctx) error {
 		return err
 	}
 	if p.want.IsValid() {
-		if d := equalStruct(p.typ, p.want, sv.Elem()); d != nil {
+		d := equalStruct(p.typ, p.want, sv.Elem())
+		if p.scalarsOnly {
+			// only the non-slice fields are compared (see sendClientThenReq); what became of the
+			// slices is kept for a counter
+			p.slicesDiffer = d != nil
+			d = nil
+			for i := range p.typ.Fields {
+				f := &p.typ.Fields[i]
+				if f.Slice || f.Nested != nil {
+					continue
+				}
+				if x := equalField(f, p.want.FieldByName(f.Name), sv.Elem().FieldByName(f.Name), f.Name); x != nil {
+					x.Top, d = i, x
+					p.slicesDiffer = false
+					break
+				}
+			}
+		}
+		if d != nil {
 			p.diff = d
 			p.got = renderStruct(p.typ, sv.Elem())
 			// the differing leaf may alias request memory: copy what we keep
@@ -259,6 +279,7 @@ func (o *outcome) manner() string {
 
 // roundTrip sends the struct with the bundled client and lets the handler bind and compare.
 func (r *rig) roundTrip(p *probe) *outcome {
+	p.scalarsOnly = p.send != nil && p.send.mode == sendClientThenReq && p.src.isText()
 	r.cur.Store(p)
 	r.trips++
 	defer r.removeUploads()
@@ -360,10 +381,12 @@ func (r *rig) prepareClient(cl *client.Client, p *probe) {
 	}
 }
 
-func eachHeader(p *probe, add func(k, v string)) {
-	for i := range p.typ.Fields {
-		f := &p.typ.Fields[i]
-		fv := p.want.FieldByName(f.Name)
+func eachHeader(p *probe, add func(k, v string)) { eachHeaderOf(p.typ, p.want, add) }
+
+func eachHeaderOf(t *typeSpec, val reflect.Value, add func(k, v string)) {
+	for i := range t.Fields {
+		f := &t.Fields[i]
+		fv := val.FieldByName(f.Name)
 		if f.Slice {
 			for j := 0; j < fv.Len(); j++ {
 				add(f.wire("header"), formatScalar(f.K, fv.Index(j)))
